@@ -167,4 +167,7 @@ def run(tier):
                       'compile/directive/parse layer values for 8 settings x {model, generated parser, tatsu.parse, parser class of the generated model source (constructor settings as the lowest layer)}. non-trivial = accepted layout '
                       'with distinct (grammar, cfg, AST) / a layer point with at least one layer present')
     ck.cov['exhaustive'] = True
+    # history independence over a pool of public-API calls: every response must be the one the call gets alone in a fresh interpreter
+    from .. import historypool as _hp
+    _hp.check_pool(ck, _hp.pool_c09(), 'lexical settings given to one call', spec='ConfigLayers!NoLeak / ApiHistory!HistoryIndependent', orders=2 if tier == 'quick' else 6)
     return ck.finish()
